@@ -199,3 +199,107 @@ class MakeLink(Contract):
 
 
 CONTRACTS += [MakeLink()]
+
+
+# ============================================================================= _find_all_links: which directories of an existing view hold a leaf
+
+WD = z3.DeclareSort("WalkDir")
+WDIR = z3.Function("WDIR", z3.IntSort(), WD)
+LEAF_IN_DIRS = z3.Function("LEAF_IN_DIRS", z3.IntSort(), z3.BoolSort())      # the leaf name is among dirnames of the i-th walk step
+LEAF_IN_FILES = z3.Function("LEAF_IN_FILES", z3.IntSort(), z3.BoolSort())    # ... among filenames (a dangling link is reported as a file)
+NAME_AT = z3.Function("NAME_AT", z3.IntSort(), z3.IntSort(), z3.IntSort(), z3.IntSort())   # (step, which list, position) -> name code
+NLEN = z3.Function("NLEN", z3.IntSort(), z3.IntSort(), z3.IntSort())
+LEAF = z3.IntVal(0)           # name code of the leaf
+
+
+class SWName(Sym):
+    def __init__(self, e):
+        self.e = e
+
+    def sym_eq(self, ex, other):
+        if other == "THE-LEAF":
+            return SBool(self.e == LEAF)
+        raise Unsupported("name comparison")
+
+
+class SNames(Sym):
+    def __init__(self, step, which):
+        self.step, self.which = step, which
+
+    def sym_contains(self, ex, x):
+        if x == "THE-LEAF":
+            k = z3.Int("ck")
+            return SBool(z3.Exists([k], z3.And(0 <= k, k < NLEN(self.step, z3.IntVal(self.which)), NAME_AT(self.step, z3.IntVal(self.which), k) == LEAF)))
+        raise Unsupported("membership of this name")
+
+    def sym_iter(self, ex):
+        step, which = self.step, self.which
+        cs = CutSeq(NLEN(step, z3.IntVal(which)), lambda interp, j: SWName(NAME_AT(step, z3.IntVal(which), j)), label=("dirnames", "filenames")[which])
+        cs.step, cs.which = step, which
+        return cs
+
+
+class SWalkDirTok(Sym):
+    def __init__(self, e):
+        self.e = e
+
+
+class SWalk2(Sym):
+    def __init__(self, ex):
+        self.n = z3.Int("n_walk_steps")
+        ex.assume(self.n >= 0)
+
+    def sym_iter(self, ex):
+        def at(interp, i):
+            g = interp.ctx.ghost
+            g["step"], g["yielded"] = i, []
+            return (SWalkDirTok(WDIR(i)), SNames(i, 0), SNames(i, 1))
+        return CutSeq(self.n, at, label="walk")
+
+
+class FindAllLinks(Contract):
+    target = f"{LV}._find_all_links"
+    properties = ("C17",)
+    assumptions = ("os.walk reports a symbolic link to a directory among dirnames and a dangling link among filenames (so both lists must be searched for the leaf)",)
+
+    def make_ctx(self, case):
+        ctx = super().make_ctx(case)
+        ctx.externals[os.walk] = lambda interp, root, *a, **k: SWalk2(interp.ex)
+        ctx.externals[os.path.relpath] = lambda interp, p, root: ("relpath-to-root", p.e) if isinstance(p, SWalkDirTok) and root == "ROOT" else (_ for _ in ()).throw(Unsupported("relpath shape"))
+        return ctx
+
+    def loops(self, case):
+        def inv_names(interp, fr, j, seq):
+            # no name before position j is the leaf (otherwise the loop had been left)
+            k = z3.Int("nk")
+            return z3.ForAll([k], z3.Implies(z3.And(0 <= k, k < j), NAME_AT(seq.step, z3.IntVal(seq.which), k) != LEAF))
+
+        def body(interp, fr, writes):
+            ex, g = interp.ex, interp.ctx.ghost
+            i, ys = g["step"], g["yielded"]
+            k = z3.Int("bk")
+            has = lambda which: z3.Exists([k], z3.And(0 <= k, k < NLEN(i, z3.IntVal(which)), NAME_AT(i, z3.IntVal(which), k) == LEAF))
+            ex.oblige(self.oname("body:a_directory_is_reported_iff_the_leaf_is_among_its_sub-directories_or_its_files_(dangling_links_count)"),
+                      z3.BoolVal(len(ys) >= 1) == z3.Or(has(0), has(1)), note=f"{len(ys)} yielded")
+            ex.oblige(self.oname("body:what_is_reported_is_this_directory_relative_to_the_view_root"), z3.BoolVal(all(isinstance(y, tuple) and y[0] == "relpath-to-root" for y in ys))
+                      if not ys else z3.And(*[y[1] == WDIR(i) if isinstance(y, tuple) and y[0] == "relpath-to-root" else z3.BoolVal(False) for y in ys]))
+        names = LoopSpec("names", inv_names, scratch=("dirname", "filename"), on_break="continue")
+        return {"walk": LoopSpec("walk", lambda interp, fr, i, seq: z3.BoolVal(True), scratch=("dirpath", "dirnames", "filenames", "dirname", "filename"), heap_frame=body),
+                "dirnames": names, "filenames": names}
+
+    def setup(self, interp, case):
+        ex = interp.ex
+        a, b = z3.Ints("la lb")
+        ex.assume(z3.ForAll([a, b], NLEN(a, b) >= 0))
+        interp.ctx.ghost["yielded"] = []
+        return ["ROOT", "THE-LEAF"], {}, {}
+
+    def yield_hook(self, interp, case, pre):
+        return lambda v: interp.ctx.ghost["yielded"].append(v)
+
+    def post(self, interp, case, pre, outcome):
+        if outcome[0] != "return":
+            interp.ex.oblige(self.oname("raises:nothing"), False, note=repr(outcome[1]))
+
+
+CONTRACTS += [FindAllLinks()]
